@@ -19,6 +19,11 @@ def run(tier, seed):
     for x in out["traces"]:
         if not x.get("dims_ok", True):
             out["violations"].append(_pipe.violation(x, "output-dimensions-or-format-label", "native-trace", "C01"))
+    for wb in out["r"].get("wide_bad", []):
+        if wb["what"] == "garbage-value":
+            rec = {"text": wb["text"], "formats": wb["formats"], "cap": wb["cap"], "group": None, "dims": wb["input"]["dims"],
+                   "content": wb["input"]["content"], "out": wb.get("out")}
+            out["violations"].append(_pipe.violation(rec, "garbage-value(not-finite-or-not-exact)", "native-wide", "C01"))
     # the contraction placement itself: spec/Desugar.tla (model-checked against Denote) vs the real desugar_assignment
     from .. import desugar_conf
 
